@@ -44,6 +44,12 @@ func auditProblems(wd string, exp *ref.Result, ti *mon.TraceIndex) (ps []mon.Pro
 		// tag from anywhere else (another record, another run) is a wrong record
 		ps = append(ps, mon.CompareAudit(got, want, path, false)...)
 		loaded[path] = got
+		// the record accompanies the file for whoever may read the file: its permission bits are not narrower
+		if fo, err1 := os.Stat(filepath.Join(wd, path)); err1 == nil {
+			if fa, err2 := os.Stat(filepath.Join(wd, path+".audit.json")); err2 == nil && !fo.IsDir() && fo.Mode().Perm()&^fa.Mode().Perm()&0444 != 0 {
+				ps = append(ps, mon.Problem{Sig: "audit-file-less-readable-than-output", Msg: fmt.Sprintf("%s has mode %v, its audit file %v", path, fo.Mode().Perm(), fa.Mode().Perm())})
+			}
+		}
 		records += got.Count()
 		if d := got.Depth(); d > maxDepth {
 			maxDepth = d
@@ -84,7 +90,7 @@ func auditProblems(wd string, exp *ref.Result, ti *mon.TraceIndex) (ps []mon.Pro
 func c10(args []string) {
 	c := chk.New("C10", "exploration", args)
 	c.Build(false)
-	c.Rule("[globbed] files written as ./made/x and picked up again by a dependent FileGlobber as made/x: the consumer's record holds the producer's record; [path shapes] chain / two-output / diamond topologies with outputs in nested, parent-relative and absolute directories: every record field (OutFiles, Upstream keys, commands) names the declared paths; [stale audit files] history: run with one tagging rule, output files deleted while their .audit.json files stay, run with another tagging rule - the records the second run writes carry the second run's tags only; generated graphs (a quarter of the commands carry a free-text argument with JSON-escape look-alikes such as \\u0026, printf verbs or backslashes) with multi-input / multi-output tasks, parameters, MapToTags components (tags consumed downstream in commands and default output names), StreamToSubStream + joined in-ports, fan-in / fan-out, Prepend, depth <= 6; oracle: every finalized output has a parsable <path>.audit.json equal to the reference lineage tree in ProcessName, Command, Params, Tags, OutFiles and Upstream key set, recursively down to the source files (empty records), timing sane (start <= finish, duration >= 0, start non-zero); the recorded command equals the argv the command itself logged; a tag attached with an empty value and filled in by a later tagging step; parameter ports that exist only through InParam(name) (value used in the SetOut pattern, not in the command) belong to the record too. distinct_nontrivial = distinct (graph shape, config) with >= 3 audit records of depth >= 2")
+	c.Rule("[globbed] files written as ./made/x and picked up again by a dependent FileGlobber as made/x: the consumer's record holds the producer's record; [path shapes] chain / two-output / diamond topologies with outputs in nested, parent-relative and absolute directories (also spelled with ./ and // in them): every record field (OutFiles, Upstream keys, commands) names the declared paths; [stale audit files] history: run with one tagging rule, output files deleted while their .audit.json files stay, run with another tagging rule - the records the second run writes carry the second run's tags only; generated graphs (a quarter of the commands carry a free-text argument with JSON-escape look-alikes such as \\u0026, printf verbs or backslashes) with multi-input / multi-output tasks, parameters, MapToTags components (tags consumed downstream in commands and default output names), StreamToSubStream + joined in-ports, fan-in / fan-out, Prepend, depth <= 6; oracle: every finalized output has a parsable <path>.audit.json equal to the reference lineage tree in ProcessName, Command, Params, Tags, OutFiles and Upstream key set, recursively down to the source files (empty records), timing sane (start <= finish, duration >= 0, start non-zero); the audit file is readable by everybody who may read the output (permission bits); the recorded command equals the argv the command itself logged; a tag attached with an empty value and filled in by a later tagging step; parameter ports that exist only through InParam(name) (value used in the SetOut pattern, not in the command) belong to the record too. distinct_nontrivial = distinct (graph shape, config) with >= 3 audit records of depth >= 2")
 	c.Assume("ids and absolute times are not compared", "MapToTags is only placed on streams it consumes alone (the component mutates the record it shares with the producer; with sibling consumers that is the C12 race)")
 	rng := c.Rand("c10")
 	type job struct {
@@ -488,6 +494,22 @@ func c10pathShapes(c *chk.Ctx) {
 		root := c.CaseDir()
 		defer c.Drop(root)
 		s := gen.Topo(j.kind, j.sh, j.gof, root, 2)
+		if i%2 == 1 && j.sh == gen.ShapeNested {
+			// paths that are valid but not in their shortest spelling: "./" in front of the source files, a doubled slash in
+			// the output patterns - records and Upstream keys use the paths as the workflow spells them
+			for _, p := range s.Procs {
+				if p.Kind == spec.KFileSource {
+					for k, f := range p.Files {
+						s.Sources["./"+f] = s.Sources[f]
+						delete(s.Sources, f)
+						p.Files[k] = "./" + f
+					}
+				}
+				for _, o := range p.Outs {
+					o.Pattern = strings.Replace(o.Pattern, "n1/", "n1//", 1)
+				}
+			}
+		}
 		exp := evalRef(s, nil)
 		if exp.Err != "" {
 			c.Broken("reference cannot evaluate " + s.Name + ": " + exp.Err)
